@@ -30,10 +30,15 @@ def jobs(tier):
         J.append(Job(b, "merged", "2,0,0,0", p1, env))
         J.append(Job(b, "merged", "1,0,1,0", p1, env))
         J.append(Job(b, "merged", "1,0,0,0", dict(p1, futex_enosys=1), env))
-        J.append(Job(b, "three_callers", "1,0,0,0", p1, env))
+        # quick: the three-thread scenarios run once per flavor (the second membarrier configuration of memb / bp only changes
+        # smp_mb_master, which the two-thread scenarios above explore in both configurations)
+        dup = q and env.get("VRT_MEMBARRIER") == 0
+        if not dup:
+            J.append(Job(b, "three_callers", "1,0,0,0", p1, env))
         if not q or (b == "gp_mb"):
             J.append(Job(b, "three_callers", "1,0,1,0", p1, env))
-        J.append(Job(b, "two_readers", "2,0,0,0", p1, env))
+        if not dup:
+            J.append(Job(b, "two_readers", "2,0,0,0", p1, env))
         if b == "gp_bp":
             J.append(Job(b, "bp_fork_handlers", "2,0,0,0", p1, env))
             J.append(Job(b, "bp_fork_handlers", "1,0,1,0", dict(p1, n=2), env))
